@@ -895,3 +895,164 @@ def Emit(inp, tab, ev):
         emitted_address_oracle(tab, s)
     ev["leaves"] = [{"role": r, "s": T(s)} for r, s in leaves]
     ev["res"] = res_of(ok, v)
+
+
+# ----------------------------------------------- C06 paper wallet, C15 paranoia
+SLIP = {"bip44": 44, "bip49": 49, "bip84": 84}
+ADDRK = {"bip44": "p2pkh", "bip49": "p2sh_p2wpkh", "bip84": "p2wpkh"}
+
+
+def _iv(inp):
+    """interval bounds travel as 5-byte big-endian lists (2^31 does not fit a TLC integer)"""
+    return int.from_bytes(bytes(inp["start"]), "big"), int.from_bytes(bytes(inp["end"]), "big")
+
+
+def _paper_wallet(inp):
+    from btc_hd_wallet import PaperWallet
+    test = inp["net"] == "test"
+    if inp.get("seed") is not None:
+        return PaperWallet.from_bip39_seed_bytes(bytes(inp["seed"]), testnet=test)
+    return PaperWallet.from_mnemonic(untext(inp["mnemonic"]), untext(inp["password"]), testnet=test)
+
+
+def _ref_master(tab, inp):
+    from . import refwallet as W
+    if inp.get("seed") is not None:
+        seed = bytes(inp["seed"])
+    else:
+        seed = _seed_oracles(tab, untext(inp["mnemonic"]), untext(inp["password"]))
+    return W.master(tab, seed, inp["net"])
+
+
+def _ref_generate(tab, rm, net, account, start, end):
+    from . import refwallet as W
+    H = W.HARD
+    for b, p in SLIP.items():
+        apath = [p + H, (1 if net == "test" else 0) + H, account + H]
+        acct = W.derive(tab, rm, apath)
+        W.ser(tab, acct, W.VERSIONS[("pub", net, b)], False)
+        W.ser(tab, acct, W.VERSIONS[("prv", net, b)], True)
+        chain = W.derive(tab, rm, apath + [0])
+        for i in range(start, max(start, end)):
+            c = W.ckd(tab, chain, i)
+            W.ref_addr(tab, ADDRK[b], c.K, net)
+            tab.hash256(bytes([0xef if net == "test" else 0x80]) + c.k + b"\x01")
+
+
+@act
+def Generate(inp, tab, ev):
+    """inp: mnemonic+password or seed, net, account, start, end (at most a few rows)"""
+    import json as _json
+    import os
+    from . import tlc as _tlc
+    rm = _ref_master(tab, inp)
+    ev["master"] = rm.json()
+    st, en = _iv(inp)
+    _ref_generate(tab, rm, inp["net"], inp["account"], st, en)
+
+    def go():
+        w = _paper_wallet(inp)
+        data = w.generate(account=inp["account"], interval=(st, en))
+        out = {"mnemonic": T(data["MASTER"]["mnemonic"] or ""), "password": T(data["MASTER"]["password"] or "")}
+        for b in SLIP:
+            blk = data[b.upper()]
+            aek = blk["account_extended_keys"]
+            out[b] = {"path": T(aek["path"]), "pub": T(aek["pub"]), "prv": T(aek["prv"] or ""),
+                      "rows": [[T(x if x is not None else "") for x in row] for row in blk["groups"]]}
+        if inp.get("json") and data["MASTER"]["mnemonic"] is not None:
+            # the library's JSON rendering, parsed by TLC's own JSON reader (Gson) and compared with the tree
+            p = os.path.join(_tlc.scratch_dir("json"), "wallet.json")
+            with open(p, "w") as f:
+                f.write(w.json(data))
+            ev["jsonfile"] = p
+            ev["tree"] = data
+        return out
+    ok, v = call(go)
+    ev["res"] = res_of(ok, v)
+
+
+@act
+def Wasabi(inp, tab, ev):
+    import json as _json
+    from . import refwallet as W
+    H = W.HARD
+    rm = _ref_master(tab, inp)
+    ev["master"] = rm.json()
+    n = W.derive(tab, rm, [84 + H, H, H])
+    W.ser(tab, n, W.VERSIONS[("pub", inp["net"], "bip44")], False)
+    tab.hash160(rm.K)
+
+    def go():
+        d = _json.loads(_paper_wallet(inp).wasabi_json())
+        return {"xpub": T(d["ExtPubKey"]), "fp": T(d["MasterFingerprint"])}
+    ok, v = call(go)
+    ev["res"] = res_of(ok, v)
+
+
+@act
+def Bip85Data(inp, tab, ev):
+    from btc_hd_wallet.bip39_wordlist import word_list
+    from . import refwallet as W
+    rm = _ref_master(tab, inp)
+    ev["master"] = rm.json()
+    wt = []
+    for app, p, i in (("mnemonic", 24, 0), ("mnemonic", 18, 0), ("mnemonic", 12, 0), ("wif", 0, 0), ("wif", 0, 1), ("wif", 0, 2),
+                      ("xprv", 0, 0), ("xprv", 0, 1), ("xprv", 0, 2)):
+        wt += W.ref_bip85(tab, rm, app, p, i, None, word_list) or []
+    ev["wordtab"] = wt
+    ok, v = call(lambda: [[T(k), T(val)] for k, val in _paper_wallet(inp).bip85_data().items()])
+    ev["res"] = res_of(ok, v)
+
+
+def tree_leaves(data, prefix=""):
+    """every string leaf at every nesting depth: (pointer, string)"""
+    out = []
+    if isinstance(data, dict):
+        for k, v in data.items():
+            out += tree_leaves(v, prefix + "/" + str(k))
+    elif isinstance(data, (list, tuple)):
+        for i, v in enumerate(data):
+            out += tree_leaves(v, prefix + "/" + str(i))
+    elif isinstance(data, str):
+        out.append((prefix, data))
+    elif data is not None and not isinstance(data, bool):
+        out.append((prefix, str(data)))
+    return out
+
+
+def leaf_role(ptr):
+    parts = ptr.strip("/").split("/")
+    if parts[0] == "MASTER":
+        return parts[1] if parts[1] in ("mnemonic", "password") else "other"
+    if parts[0] == "BIP85":
+        return "bip85"
+    if parts[0] in ("BIP44", "BIP49", "BIP84"):
+        if parts[1] == "account_extended_keys":
+            return parts[2] if parts[2] in ("path", "pub", "prv") else "other"
+        if parts[1] == "groups" and len(parts) == 4:
+            return ["path", "addr", "sec", "wif"][int(parts[3])] if int(parts[3]) < 4 else "other"
+    return "other"
+
+
+@act
+def Paranoia(inp, tab, ev):
+    from btc_hd_wallet.__main__ import paranoia_mode
+    from btc_hd_wallet.bip39_wordlist import word_list
+
+    def go():
+        w = _paper_wallet(inp)
+        data = w.generate(account=inp["account"], interval=_iv(inp))
+        filt = paranoia_mode(data=data)
+        full_l = tree_leaves(data)
+        filt_l = tree_leaves(filt)
+        ev["full"] = [{"ptr": T(p), "role": leaf_role(p), "s": T(s)} for p, s in full_l]
+        ev["filt"] = [{"ptr": T(p), "role": leaf_role(p), "s": T(s)} for p, s in filt_l]
+        for p, s in full_l + filt_l:
+            emitted_address_oracle(tab, s)
+        if any(len(s.split(" ")) >= 12 for p, s in filt_l):
+            ev["words"] = [T(str(x)) for x in word_list]
+        return {"nfull": len(full_l), "nfilt": len(filt_l)}
+    ok, v = call(go)
+    ev.setdefault("full", [])
+    ev.setdefault("filt", [])
+    ev["res"] = res_of(ok, v)
